@@ -15,6 +15,9 @@ namespace hv
 {
 namespace
 { // every kind's TU defines its own Impl: keep them apart
+#ifdef CAPPUCCINO_VERIF_HOOKS
+template<class C> std::string dump_of(C& c); // defined in dump.hpp, needs the friend hook
+#endif
 using namespace cappuccino;
 using ms = std::chrono::milliseconds;
 
@@ -277,14 +280,18 @@ template<class V, thread_safe TS> struct Impl final : IC
     }
 
 #ifdef CAPPUCCINO_VERIF_HOOKS
-    std::string dump() override;
+    std::string dump() override { return dump_of(c); }
 #endif
 };
+} // namespace
+} // namespace hv
 
 #ifdef CAPPUCCINO_VERIF_HOOKS
 #include "dump.hpp"
 #endif
-} // namespace
+
+namespace hv
+{
 
 #define HV_CAT2(a, b) a##b
 #define HV_CAT(a, b) HV_CAT2(a, b)
